@@ -279,6 +279,40 @@ func c10Gen(t *rapid.T) c10Case {
 func TestC10(t *testing.T) {
 	st := newStats("C10")
 	defer st.flush()
+	// big tables: 13 .. 4099 features (sizes around every power of two, where sort routines, worker pools and block
+	// loops change their ways) of short ranges spread over the sequence, every tenth complemented, every seventh a
+	// join; insert;delete and embed;delete at the start, in the middle, near the end; cut;concat at three cuts
+	eb := enumPart(t, c10Prop, st, "big-tables")
+	for _, nf := range []int{13, 16, 17, 32, 33, 65, 129, 257, 513, 1023, 1024, 1025, 1027, 2049, 4099} {
+		if nf > 1100 && !thorough() {
+			continue
+		}
+		L := 10*nf + 30
+		var ff []Feat
+		for i := 0; i < nf; i++ {
+			var l Loc = lrg(10*i+2, 10*i+8)
+			if i%7 == 3 {
+				l = ljn(lrg(10*i+1, 10*i+4), lrg(10*i+6, 10*i+9))
+			}
+			if i%10 == 5 {
+				l = lco(l)
+			}
+			canon, _ := fromGts(toGts(l))
+			ff = append(ff, Feat{Key: []string{"gene", "CDS", "misc_feature"}[i%3], Loc: canon, Quals: [][]string{{"label", fmt.Sprintf("h%d", i)}}})
+		}
+		for _, idx := range []int{0, 5, L / 2, L - 25, L} {
+			for _, embed := range []bool{false, true} {
+				ins := c02Case{HostLen: L, GuestLen: 5, Index: idx, Embed: embed, Host: ff}
+				if !eb.try(c10Case{Mode: "insdel", Ins: &ins}) {
+					return
+				}
+			}
+		}
+		if !eb.try(c10Case{Mode: "cutcat", L: L, Cuts: []int{5, L / 2, L - 25}, Feat: ff}) {
+			return
+		}
+	}
+	eb.done(thorough())
 	rapidPart(t, c10Prop, st, "rapid", pick(30000, 250000), c10Gen)
 	if t.Failed() {
 		return
